@@ -227,3 +227,66 @@ def lift_metadata(tr, ka, kb, mode_a, mutable_b, extra_in, reverse):
                                                              *want_c)):
       return False
   return len(log) > n0 and all(log)
+
+
+# ------------------------------------------------------------------ nnx.vmap / nnx.scan
+from flax import nnx
+from harness.arr import Arr
+from harness import c08 as C08
+
+
+class _SM(nnx.Module):
+  def __init__(self, w, c):
+    self.w = nnx.Param(w, sharding=None)
+    self.c = nnx.BatchStat(c)
+
+
+def _names_ok(var, shape, names):
+  return tuple(var.value.shape) == tuple(shape) and tuple(var.sharding) == tuple(names)
+
+
+@with_real_dicts
+def nnx_transform_metadata(tr, ka, other, order, oa):
+  """nnx.vmap / nnx.scan with transform_metadata={PARTITION_NAME: 'layers'}: inside
+  the body every sliced Variable has one name per remaining axis (the stacking name
+  removed at the sliced position), afterwards the caller's Variables carry their
+  names again; for every order of the StateAxes filters (an axis filter before or
+  after a Carry / None / other-axis filter)."""
+  k = pick([0, 1, 2, -1], ka)
+  n = 3
+  wshape, wnames = (2, 4), ('din', 'dout')
+  full_shape, full_names = _ins(wshape, k, n), _ins(wnames, k, PN)
+  w = Arr(list(range(2 * 4 * n)), full_shape)
+  # the BatchStat group: 0 = Carry (scan) / None (vmap), 1 = its own axis 0
+  if other == 0:
+    c_axis = nnx.Carry if tr == 1 else None
+    c = Arr([5], (1,))
+    cnames = ('stat',)
+  else:
+    c_axis = 0
+    c = Arr([5] * n, (n, 1))
+    cnames = (PN, 'stat')
+  m = _SM(w, c)
+  m.w.sharding = full_names
+  m.c.sharding = cnames
+  items = [(nnx.Param, k), (nnx.BatchStat, c_axis)]
+  if order:
+    items.reverse()
+  axes = nnx.StateAxes(dict(items))
+  seen = []
+
+  def body(mm, x):
+    seen.append(_names_ok(mm.w, wshape, wnames))
+    seen.append(_names_ok(mm.c, (1,), ('stat',)))
+    return x
+  x = Arr([1, 2, 3], (n,))
+  md = {nnx.PARTITION_NAME: PN}
+  with C08.VmapEnv():
+    if tr == 0:
+      nnx.vmap(body, in_axes=(axes, 0), out_axes=oa * 0, transform_metadata=md)(m, x)
+    else:
+      nnx.scan(body, in_axes=(axes, 0), out_axes=0, transform_metadata=md)(m, x)
+  if not seen or not all(seen):
+    return False
+  return _names_ok(m.w, full_shape, full_names) and _names_ok(
+      m.c, c.shape, cnames)
